@@ -54,7 +54,9 @@ def meta(d, with_range=True):
         if k == 'range' and not with_range:
             continue
         try:
-            out.append((k, fbits(getattr(d, k)())))
+            # asked for by POSITION, so that columns sharing a channel name keep their own entries
+            n = len(d.channels)
+            out.append((k, fbits(getattr(d, k)(list(range(n))) if n else getattr(d, k)())))
         except Exception as e:           # metadata not aligned with the shape
             out.append((k, ('EXC', type(e).__name__)))
     return tuple(out)
